@@ -11,7 +11,8 @@ including failed ones.  (I) and (W) are structural:
              that clears before returning) - this includes both Drop impls, hence the failure paths
   POOLSITES  closed inventory of pool accesses (pop / push / extend only, in the reviewed functions)
   CONFIGW    field-write inventory of SerializerConfig / Buffers: only at the pool sites, in constructors and in the
-             public flag setter
+             public flag setter; a `&mut` borrow of an option field counts as a write (mem::replace save/restore around a
+             fallible call), and the library never calls the user's flag setter itself
   SHARED     nested / out-of-order serialisation borrows the same configuration (no second pool)
 """
 from ..lib import *
